@@ -130,6 +130,9 @@ type vfC02MuxRun struct {
 	mu    sync.Mutex
 
 	abandoned atomic.Bool
+	// a glitch of the underlying connection was armed: the session may end (every error of the connection is
+	// fatal for the muxer) or go on untouched; errors are allowed from here on, garbling never
+	loose atomic.Bool
 	log       []any
 }
 
@@ -138,6 +141,9 @@ func (r *vfC02MuxRun) note(m map[string]any) { r.mu.Lock(); r.log = append(r.log
 func (r *vfC02MuxRun) mismatch(step int, class, what string, exp, got any) {
 	if r.abandoned.Load() && class != "mux-stall" {
 		return // the watchdog tore the sessions down: what the walk sees from then on is the harness's doing
+	}
+	if r.loose.Load() && class != "mux-bytes" && class != "mux-panic" && class != "MACHINERY" && class != "mux-stall" {
+		return // after a glitch of the connection only garbling counts (errors, resets, early EOF are allowed)
 	}
 	r.mu.Lock()
 	pre := append([]any(nil), r.log...)
@@ -310,6 +316,23 @@ func (r *vfC02MuxRun) body(addCloser func(func())) {
 		steps++
 		switch op.Name() {
 		case "pump":
+		case "glitch":
+			// the connection that carries direction d glitches at its next read / write
+			w := cb.In // a -> b
+			if op.S("d") == "ba" {
+				w = ca.In
+			}
+			r.loose.Store(true)
+			for _, c := range chans {
+				c.led.MarkFault(1 << 61)
+			}
+			if op.S("kind") == "shortwrite" {
+				w.InjectShortWrite()
+			} else {
+				w.InjectRead(op.S("kind"))
+			}
+			r.note(map[string]any{"op": "glitch", "d": op.S("d"), "kind": op.S("kind")})
+			r.res.Case("glitch/" + op.S("kind"))
 		case "open":
 			s := op.I("s")
 			opener, accepter := ma, mb
@@ -320,12 +343,14 @@ func (r *vfC02MuxRun) body(addCloser func(func())) {
 			so, err := opener.OpenStream(context.Background())
 			if err != nil {
 				r.mismatch(si, "mux-session-failed", "OpenStream on a healthy connection: "+err.Error(), "stream", err.Error())
-				return
+				ok = false
+				break
 			}
 			sa, err := accepter.AcceptStream()
 			if err != nil {
 				r.mismatch(si, "mux-session-failed", "AcceptStream on a healthy connection: "+err.Error(), "stream", err.Error())
-				return
+				ok = false
+				break
 			}
 			ea, eb := so, sa
 			if op.S("by") == "b" {
@@ -339,6 +364,9 @@ func (r *vfC02MuxRun) body(addCloser func(func())) {
 					c.w, c.r = ea, eb
 				} else {
 					c.w, c.r = eb, ea
+				}
+				if r.loose.Load() {
+					c.led.MarkFault(1 << 61)
 				}
 				chans[id] = c
 				wg.Add(1)
